@@ -33,8 +33,29 @@ def run(tier):
                     p["ali%d" % i] = (alimask >> i) & 1
                     p["scoped%d" % i] = 1 if (i + sum(sec)) % 3 == 0 else 0
                 jobs.append(dict(base, harness="VerifC18Sections", params=p))
-    return run_property("C18", tier, [Group("resolve", jobs)],
-                        required_covers=["alias with a range", "scoped real name", "several bundles", "a bundle installed under an alias", "several dependencies in one response"],
+    # end to end, sequential: npm Resolve over the API-backed client (stand-in service) against the in-memory client
+    import random
+    from props import c06
+    rnd = random.Random(20261007)
+    ebase = dict(unwind=400, timeout_s=300 if q else 1200, max_witnesses=1, witness_every=50, panic_is_violation=True,
+                 max_steps=50_000_000, max_depth=200, summarise=c06.SUM)
+    ejobs = []
+    for i in range(150 if q else 3000):
+        sk = c06.skeleton2(rnd, alias_p=0.3 if i % 3 == 0 else 0.0)
+        for k in list(sk):
+            if k.startswith("next"):
+                sk[k] = -1          # the API reports only the default (latest) version
+            if k.startswith("bl"):
+                sk[k] = 0           # and no deprecation
+            if k.endswith("k") and sk[k] == 5:
+                sk[k] = 2           # dev+optional is not a section of its own
+        for k in list(sk):
+            if k.endswith("k") and sk[k] == 4:
+                sk[k[:-1] + "r"] = 0  # bundleDependencies are names: the requirement is *
+                sk[k[:-1] + "a"] = 0
+        ejobs.append(dict(ebase, harness="VerifC18EndToEnd", params=sk))
+    return run_property("C18", tier, [Group("resolve", jobs), Group("rnpm", ejobs, files=["c06.go", "c06v2.go", "c18e2e.go"])],
+                        required_covers=["alias with a range", "scoped real name", "several bundles", "a bundle installed under an alias", "several dependencies in one response", "a graph with several nodes through both clients"],
                         assumptions=["sequential unit clauses on flattenNPMDeps and npmRequirements with symbolic names/requirements/bundle names and versions; bundle trees up to depth 3 from job parameters",
-                                     "the gRPC round trip (equality with the in-memory client through a fake Insights service) and all goroutine interleavings are not decided: the engine has no scheduler and does not execute grpc"],
+                                     "end to end, sequential: the npm resolver over the API-backed client, served by an in-process stand-in that implements the generated InsightsClient interface from the universe, gives the same graph as over the in-memory client (second-generation C06 skeletons restricted to what the API can express: latest tag only, the four sections, bundleDependencies by name, aliases; bundled packages are not generated end to end)", "gRPC transport itself and goroutine interleavings are not decided: the engine has no scheduler and does not execute grpc"],
                         bounds={"alias_body_len": 4 if q else 6, "bundles": 3, "depth": 3})
